@@ -1,10 +1,463 @@
 /-
   Helper lemmas for `Model/Vacuum.lean` (property C13): VACUUM preserves the invariant and the simulation relation of
-  `Lemmas/Db.lean` / `Lemmas/DbSim.lean`.  Everything here is for `Defects.none`, `VDefects.none`.
+  `Lemmas/Db.lean` / `Lemmas/DbSim.lean`.  Everything here is for `Defects.none` (`D0`) and `VDefects.none` (`V0`).
 -/
 import AxVerif.Model.Vacuum
 import AxVerif.Lemmas.DbHist
 namespace AxVerif.Db
 open AxVerif.Db
+
+abbrev V0 : VDefects := VDefects.none
+
+/-! ### one row -/
+
+theorem liveVersions_none (s : Snapshot) (r : Row) :
+    liveVersions V0 s r = r.versions.filter (fun v => !s.aborted.contains v.creator) := by
+  simp [liveVersions, V0, VDefects.none]
+
+theorem deletedForVacuum_none (s : Snapshot) (r : Row) : deletedForVacuum V0 s r = r.deleters.any s.cb := by
+  simp [deletedForVacuum, V0, VDefects.none]
+
+theorem liveVersions_subset (V : VDefects) (s : Snapshot) (r : Row) : ∀ v ∈ liveVersions V s r, v ∈ r.versions := by
+  intro v hv
+  unfold liveVersions at hv
+  split at hv
+  · cases hrv : r.versions with
+    | nil => rw [hrv] at hv; simp at hv
+    | cons x tl =>
+      rw [hrv] at hv
+      dsimp only at hv
+      split at hv
+      · simp at hv
+      · exact hv
+  · exact (List.mem_filter.1 hv).1
+
+/-- the row pass of the specification, unfolded -/
+theorem Row.vacuum_none (s : Snapshot) (h : Nat) (r : Row) :
+    r.vacuum V0 s h =
+      if (r.versions.filter (fun v => !s.aborted.contains v.creator)).isEmpty then none
+      else if r.deleters.any s.cb then none
+      else some { r with versions := trimChain h (r.versions.filter (fun v => !s.aborted.contains v.creator)),
+                         deleters := r.deleters.filter (fun d => !s.aborted.contains d) } := by
+  simp only [Row.vacuum, liveVersions_none, deletedForVacuum_none]
+
+theorem trimChain_subset (h : Nat) (vs : List Version) : ∀ v ∈ trimChain h vs, v ∈ vs := by
+  intro v hv
+  cases vs with
+  | nil => simp [trimChain] at hv
+  | cons x tl =>
+    simp only [trimChain, List.mem_cons] at hv
+    rcases hv with e | hv
+    · exact e ▸ List.mem_cons_self ..
+    · exact List.mem_cons_of_mem _ (List.takeWhile_subset _ hv)
+
+theorem trimChain_head (h : Nat) (vs : List Version) : (trimChain h vs).head? = vs.head? := by
+  cases vs <;> rfl
+
+/-- what survives of a row carries the same id and table and a subset of the stamps -/
+theorem Row.vacuum_some {V : VDefects} {s : Snapshot} {h : Nat} {r r' : Row} (hv : r.vacuum V s h = some r') :
+    r'.rid = r.rid ∧ r'.table = r.table ∧ (∀ v ∈ r'.versions, v ∈ r.versions) ∧ (∀ d ∈ r'.deleters, d ∈ r.deleters) ∧
+      r'.versions = trimChain h (liveVersions V s r) ∧ r'.deleters = r.deleters.filter (fun d => !s.aborted.contains d) ∧
+      (liveVersions V s r).isEmpty = false ∧ deletedForVacuum V s r = false := by
+  unfold Row.vacuum at hv
+  by_cases h1 : (liveVersions V s r).isEmpty = true
+  · simp [h1] at hv
+  · by_cases h2 : deletedForVacuum V s r = true
+    · simp [h1, h2] at hv
+    · simp only [h1, h2, Bool.false_eq_true, if_false, Option.some.injEq] at hv
+      subst hv
+      refine ⟨rfl, rfl, ?_, ?_, rfl, rfl, by simpa using h1, by simpa using h2⟩
+      · intro v hv
+        exact liveVersions_subset V s r v (trimChain_subset _ _ v hv)
+      · intro d hd
+        exact (List.mem_filter.1 hd).1
+
+theorem Row.vacuum_owners {V : VDefects} {s : Snapshot} {h : Nat} {r r' : Row} (hv : r.vacuum V s h = some r') :
+    ∀ u ∈ r'.owners, u ∈ r.owners := by
+  obtain ⟨_, _, h1, h2, _⟩ := Row.vacuum_some hv
+  intro u hu
+  simp only [Row.owners, List.mem_append, List.mem_map] at hu ⊢
+  rcases hu with ⟨v, hv', rfl⟩ | hd
+  · exact Or.inl ⟨v, h1 v hv', rfl⟩
+  · exact Or.inr (h2 u hd)
+
+/-- **One row.**  `s` = the vacuum transaction's snapshot.  For a snapshot `S` that sees, among the row's stamps, exactly
+    the transactions `s` counts as committed, and when every stamp that `s` does not count as committed is in `s`'s aborted
+    set (no transaction is active), the row reads the same before and after the row pass; a removed row reads `none`. -/
+theorem Row.vacuum_view (s S : Snapshot) (h : Nat) (r : Row)
+    (hS : ∀ u ∈ r.owners, S.sees u = s.cb u)
+    (hab : ∀ u ∈ r.owners, s.aborted.contains u = !s.cb u) :
+    (r.vacuum V0 s h).bind (Row.toARow D0 S) = r.toARow D0 S := by
+  have hver : ∀ v ∈ r.versions, v.creator ∈ r.owners := fun v hv => by
+    simp only [Row.owners, List.mem_append, List.mem_map]; exact Or.inl ⟨v, hv, rfl⟩
+  have hdel : ∀ d ∈ r.deleters, d ∈ r.owners := fun d hd => by
+    simp only [Row.owners, List.mem_append]; exact Or.inr hd
+  have hfil : r.versions.filter (fun v => !s.aborted.contains v.creator) = r.versions.filter (fun v => S.sees v.creator) := by
+    apply List.filter_congr
+    intro v hv
+    rw [hab _ (hver v hv), hS _ (hver v hv)]; simp
+  have hany : r.deleters.any s.cb = r.deleters.any S.sees :=
+    any_congr_mem _ (fun d hd => (hS d (hdel d hd)).symm)
+  rw [Row.vacuum_none, hfil, hany]
+  simp only [Row.toARow]
+  rw [rowVisible_none]
+  cases hvs : r.versions.filter (fun v => S.sees v.creator) with
+  | nil =>
+    have : r.versions.find? (fun v => S.sees v.creator) = none := by
+      rw [← List.head?_filter, hvs]; rfl
+    simp [this]
+  | cons v tl =>
+    have hfind : r.versions.find? (fun v => S.sees v.creator) = some v := by
+      rw [← List.head?_filter, hvs]; rfl
+    have hvsees : S.sees v.creator = true := by
+      have : v ∈ r.versions.filter (fun v => S.sees v.creator) := by rw [hvs]; exact List.mem_cons_self ..
+      exact (List.mem_filter.1 this).2
+    cases hd : r.deleters.any S.sees with
+    | true => simp
+    | false =>
+      simp only [List.isEmpty_cons, Bool.false_eq_true, if_false, Option.bind_some]
+      unfold Row.toARow
+      rw [rowVisible_none]
+      have hd' : (r.deleters.filter (fun d => !s.aborted.contains d)).any S.sees = false := by
+        rw [List.any_filter]
+        apply Bool.eq_false_iff.2
+        intro hc
+        obtain ⟨d, hdm, hdd⟩ := List.any_eq_true.1 hc
+        have : r.deleters.any S.sees = true := List.any_eq_true.2 ⟨d, hdm, by simp at hdd; exact hdd.2⟩
+        rw [hd] at this; cases this
+      simp only [hd', Bool.false_eq_true, if_false, hfind, trimChain, List.find?_cons, hvsees, Option.map_some]
+
+/-! ### abort everything -/
+
+/-- what `abort_all` does to one entry -/
+def killTxn (t : Txn) : Txn := if t.status = .active then { t with status := .aborted } else t
+
+theorem abortAll_eq (txns : List Txn) : abortAll txns = txns.map killTxn := rfl
+
+theorem killTxn_fields (t : Txn) :
+    (killTxn t).snap = t.snap ∧ (killTxn t).startTs = t.startTs ∧ (killTxn t).ws = t.ws ∧
+    ((killTxn t).status = .committed ↔ t.status = .committed) ∧ (killTxn t).status ≠ .active := by
+  unfold killTxn
+  by_cases h : t.status = .active
+  · simp [h]
+  · simp [h]
+
+theorem getElem?_abortAll {txns : List Txn} {i : Nat} {t' : Txn} :
+    (abortAll txns)[i]? = some t' ↔ ∃ t, txns[i]? = some t ∧ t' = killTxn t := by
+  rw [abortAll_eq, List.getElem?_map]
+  cases txns[i]? with
+  | none => simp
+  | some t => simp [eq_comm]
+
+/-- `abort_all` + the end of every session -/
+def State.killAll (σ : State) : State := { σ with txns := abortAll σ.txns, sessions := [] }
+
+theorem killAll_committed (σ : State) (u : Nat) : (σ.killAll).isCommitted u ↔ σ.isCommitted u := by
+  simp only [State.isCommitted, State.killAll]
+  constructor
+  · rintro ⟨t', h1, h2⟩
+    obtain ⟨t, ht, rfl⟩ := getElem?_abortAll.1 h1
+    exact ⟨t, ht, (killTxn_fields t).2.2.2.1.1 h2⟩
+  · rintro ⟨t, ht, h2⟩
+    exact ⟨killTxn t, getElem?_abortAll.2 ⟨t, ht, rfl⟩, (killTxn_fields t).2.2.2.1.2 h2⟩
+
+theorem killAll_no_active (σ : State) (u : Nat) (t : Txn) (h : (σ.killAll).txns[u]? = some t) : t.status ≠ .active := by
+  obtain ⟨t0, _, rfl⟩ := getElem?_abortAll.1 h
+  exact (killTxn_fields t0).2.2.2.2
+
+theorem CInv.killAll (σ : State) (h : CInv σ) : CInv σ.killAll := by
+  simp only [State.killAll]
+  constructor
+  · intro i t' hi
+    obtain ⟨t, ht, rfl⟩ := getElem?_abortAll.1 hi
+    rw [(killTxn_fields t).1]; exact h.xid i t ht
+  · simpa [abortAll] using h.lc_bound
+  · intro u t' hu hst
+    obtain ⟨t, ht, rfl⟩ := getElem?_abortAll.1 hu
+    exact h.lc_max u t ht ((killTxn_fields t).2.2.2.1.1 hst)
+  · intro e he
+    obtain ⟨t, h1, h2, h3⟩ := h.clog_comm e he
+    refine ⟨killTxn t, getElem?_abortAll.2 ⟨t, h1, rfl⟩, (killTxn_fields t).2.2.2.1.2 h2, ?_⟩
+    rw [(killTxn_fields t).2.2.1]; exact h3
+  · intro u t' hu hst
+    obtain ⟨t, ht, rfl⟩ := getElem?_abortAll.1 hu
+    exact h.comm_clog u t ht ((killTxn_fields t).2.2.2.1.1 hst)
+  · intro i t' hi
+    obtain ⟨t, ht, rfl⟩ := getElem?_abortAll.1 hi
+    rw [(killTxn_fields t).2.1]; exact h.start_le i t ht
+  · intro i t' hi u hu
+    obtain ⟨t, ht, rfl⟩ := getElem?_abortAll.1 hi
+    rw [(killTxn_fields t).1, (killTxn_fields t).2.1]; exact h.snap_clog i t ht u hu
+  · intro i j ei ej hij hi hj hov
+    obtain ⟨t, h1, h2⟩ := h.fcw i j ei ej hij hi hj hov
+    exact ⟨killTxn t, getElem?_abortAll.2 ⟨t, h1, rfl⟩, by rw [(killTxn_fields t).2.1]; exact h2⟩
+
+theorem SInv.killAll (σ : State) (j : Nat) (h : SInv σ j) : SInv σ.killAll j := by
+  refine ⟨?_, h.sorted, h.bound⟩
+  intro r hr u hu
+  obtain ⟨t, h1, h2⟩ := h.stamps r hr u hu
+  exact ⟨killTxn t, getElem?_abortAll.2 ⟨t, h1, rfl⟩, by rw [(killTxn_fields t).2.2.1]; exact h2⟩
+
+theorem killAll_length (σ : State) : σ.killAll.txns.length = σ.txns.length := by simp [State.killAll, abortAll]
+
+theorem Core.killAll (σ : State) (α : Spec.State) (j : Nat) (h : Core σ α j) : Core σ.killAll α j := by
+  have hc1 := CInv.killAll σ h.cinv
+  refine ⟨hc1, SInv.killAll σ j h.sinv, h.cat, h.clock, ?_, h.log⟩
+  show view D0 (σ.killAll.freshSnap D0) σ.rows = α.committed
+  rw [← h.committed]
+  symm
+  apply view_fresh_eq σ _ h.cinv hc1
+  · intro r hr u hu
+    have := owners_lt σ j h.sinv r hr u hu
+    rw [killAll_length]; omega
+  · intro u; exact (killAll_committed σ u).symm
+
+/-! ### the vacuum snapshot -/
+
+/-- facts about a snapshot taken when no transaction is active (`sV` = the vacuum transaction's snapshot) -/
+theorem quiet_snapshot (σ1 : State) (hc : CInv σ1) (hna : ∀ (u : Nat) (t : Txn), σ1.txns[u]? = some t → t.status ≠ Status.active)
+    (u : Nat) (hu : u < σ1.txns.length) :
+    ((σ1.freshSnap D0).cb u = true ↔ σ1.isCommitted u) ∧
+    (σ1.freshSnap D0).aborted.contains u = !(σ1.freshSnap D0).cb u ∧
+    (σ1.freshSnap D0).sees u = (σ1.freshSnap D0).cb u := by
+  have hne : u ≠ σ1.txns.length := by omega
+  have h1 := fresh_cb σ1 hc u hne
+  refine ⟨h1, ?_, ?_⟩
+  · have hget : σ1.txns[u]? = some σ1.txns[u] := List.getElem?_eq_getElem hu
+    have hmem : (σ1.freshSnap D0).aborted.contains u = true ↔ σ1.txns[u].status = .aborted := by
+      rw [freshSnap_none]
+      simp only [List.contains_eq_mem, decide_eq_true_eq, mem_idsWith0]
+      constructor
+      · rintro ⟨t, ht, hs⟩
+        rw [hget] at ht; cases ht; exact hs
+      · intro hs; exact ⟨_, hget, hs⟩
+    cases hst : σ1.txns[u].status with
+    | active => exact ((hna u _ hget) hst).elim
+    | committed =>
+      have hcb : (σ1.freshSnap D0).cb u = true := h1.2 ⟨_, hget, hst⟩
+      have : (σ1.freshSnap D0).aborted.contains u = false := by
+        apply Bool.eq_false_iff.2
+        intro hc'
+        have := hmem.1 hc'
+        rw [hst] at this; cases this
+      rw [this, hcb]; rfl
+    | aborted =>
+      have hcb : (σ1.freshSnap D0).cb u = false := by
+        apply Bool.eq_false_iff.2
+        intro hc'
+        obtain ⟨t, ht, hs⟩ := h1.1 hc'
+        rw [hget] at ht; cases ht
+        rw [hst] at hs; cases hs
+      rw [hmem.2 hst, hcb]; rfl
+  · have hx : (σ1.freshSnap D0).xid = σ1.txns.length := by rw [freshSnap_none]
+    simp [Snapshot.sees, hx, hne]
+
+/-! ### the frame: abort everything, one transaction around a change of the stored rows -/
+
+theorem beginTxn_eq (σ : State) :
+    σ.beginTxn D0 = ({ σ with txns := σ.txns ++ [⟨σ.freshSnap D0, .active, [], σ.clog.length⟩] }, σ.txns.length) := rfl
+
+theorem frame_rel (σ : State) (α : Spec.State) (h : Rel σ α) (clean : Snapshot → Nat → List Row → List Row)
+    (hsub : ∀ s hz rows, ∀ r' ∈ clean s hz rows, ∃ r ∈ rows, r'.rid = r.rid ∧ ∀ u ∈ r'.owners, u ∈ r.owners)
+    (hsorted : ∀ s hz (rows : List Row), rows.Pairwise (fun a b => ridLt a.rid b.rid) →
+      (clean s hz rows).Pairwise (fun a b => ridLt a.rid b.rid))
+    (hview : ∀ s hz rows S,
+      (∀ r ∈ rows, ∀ u ∈ r.owners, S.sees u = s.cb u ∧ s.aborted.contains u = !s.cb u) →
+      view D0 S (clean s hz rows) = view D0 S rows) :
+    Rel (σ.vacuumWith D0 false clean (fun _ txns => txns)) α.quiesce := by
+  -- σ1: everything aborted
+  have c1 : Core σ.killAll α 0 := Core.killAll σ α 0 h.core
+  have hna := killAll_no_active σ
+  -- σ2: the vacuum transaction has begun
+  obtain ⟨c2, _, tx2, _⟩ := begin_core σ.killAll α 0 c1
+  rw [beginTxn_eq] at c2 tx2
+  generalize hσ2 : ({ σ.killAll with txns := σ.killAll.txns ++ [⟨σ.killAll.freshSnap D0, .active, [], σ.killAll.clog.length⟩] } : State) = σ2 at c2 tx2
+  have hσ2rows : σ2.rows = σ.rows := by rw [← hσ2]; rfl
+  have hσ2txns : σ2.txns = σ.killAll.txns ++ [⟨σ.killAll.freshSnap D0, .active, [], σ.killAll.clog.length⟩] := by rw [← hσ2]
+  have hσ2sess : σ2.sessions = [] := by rw [← hσ2]; rfl
+  have hσ2lc : σ2.lastCommitted = σ.lastCommitted := by rw [← hσ2]; rfl
+  have hσ2clock : σ2.clock = σ.clock := by rw [← hσ2]; rfl
+  let vt := σ.killAll.txns.length
+  let sV := σ.killAll.freshSnap D0
+  have hsnap : σ2.snapOf vt = sV := by
+    unfold State.snapOf
+    rw [hσ2txns]
+    simp [vt, sV]
+  -- the stamps of the stored rows
+  have hown : ∀ r ∈ σ2.rows, ∀ u ∈ r.owners, u < σ.killAll.txns.length := by
+    intro r hr u hu
+    rw [hσ2rows] at hr
+    have := owners_lt σ 0 h.core.sinv r hr u hu
+    rw [killAll_length]; exact this
+  have hq := fun u hu => quiet_snapshot σ.killAll c1.cinv hna u hu
+  -- σ3: the rows are cleaned
+  generalize hr' : clean (σ2.snapOf vt) σ2.lastCommitted σ2.rows = rows'
+  have hr'' : rows' = clean sV σ2.lastCommitted σ2.rows := by rw [← hr', hsnap]
+  have hS3 : SInvF rows' σ2.txns σ2.clock 0 := by
+    rw [hr'']
+    refine ⟨?_, hsorted _ _ _ c2.sinv.sorted, ?_⟩
+    · intro r' hr' u hu
+      obtain ⟨r, hr, _, hsubo⟩ := hsub _ _ _ r' hr'
+      obtain ⟨t, h1, h2⟩ := c2.sinv.stamps r hr u (hsubo u hu)
+      obtain ⟨r0, hr0, hrid, _⟩ := hsub _ _ _ r' hr'
+      exact ⟨t, h1, by
+        obtain ⟨r1, hr1, hrid1, hsub1⟩ := hsub _ _ _ r' hr'
+        obtain ⟨t', h1', h2'⟩ := c2.sinv.stamps r1 hr1 u (hsub1 u hu)
+        rw [h1] at h1'; cases h1'
+        rw [hrid1]; exact h2'⟩
+    · intro r' hr'
+      obtain ⟨r, hr, hrid, _⟩ := hsub _ _ _ r' hr'
+      rw [hrid]; exact c2.sinv.bound r hr
+  have hv3 : ∀ S, (∀ r ∈ σ2.rows, ∀ u ∈ r.owners, S.sees u = sV.cb u) → view D0 S rows' = view D0 S σ2.rows := by
+    intro S hS
+    rw [hr'']
+    apply hview
+    intro r hr u hu
+    exact ⟨hS r hr u hu, (hq u (hown r hr u hu)).2.1⟩
+  generalize hσ3 : ({ σ2 with rows := rows', txns := σ2.txns } : State) = σ3
+  have hfresh3 : σ3.freshSnap D0 = σ2.freshSnap D0 := by rw [← hσ3]; rfl
+  have c3 : Core σ3 α 0 := by
+    rw [← hσ3]
+    refine ⟨c2.cinv, hS3, c2.cat, c2.clock, ?_, c2.log⟩
+    show view D0 (σ2.freshSnap D0) rows' = α.committed
+    rw [← c2.committed]
+    apply hv3
+    intro r hr u hu
+    have hult := hown r hr u hu
+    apply bool_eq_of_iff
+    have hlt2 : u < σ2.txns.length := by rw [hσ2txns]; simp; omega
+    rw [fresh_sees σ2 c2.cinv u hlt2, (hq u hult).1]
+    simp only [State.isCommitted, hσ2txns]
+    constructor
+    · rintro ⟨t, h1, h2⟩
+      rcases getElem?_snoc.1 h1 with h1' | ⟨_, h1'⟩
+      · exact ⟨t, h1', h2⟩
+      · subst h1'; cases h2
+    · rintro ⟨t, h1, h2⟩; exact ⟨t, getElem?_snoc.2 (Or.inl h1), h2⟩
+  have tx3 : TxRel σ3 vt α.beginTxn := by
+    obtain ⟨t, ht, hact, hvw, hws, hst⟩ := tx2
+    refine ⟨t, by rw [← hσ3]; exact ht, hact, ?_, hws, hst⟩
+    have htsnap : t.snap = sV := by
+      have := hsnap
+      unfold State.snapOf at this
+      rw [show σ2.txns[vt]? = some t from ht] at this
+      exact this
+    rw [← hvw, ← hσ3]
+    show view D0 t.snap rows' = view D0 t.snap σ2.rows
+    rw [htsnap]
+    apply hv3
+    intro r hr u hu
+    exact (hq u (hown r hr u hu)).2.2
+  -- σ5: the vacuum transaction commits
+  obtain ⟨_, c5, _⟩ := commit_core σ3 α 0 c3 vt α.beginTxn tx3
+  rw [spec_tick] at c5
+  -- assemble
+  have hunf : σ.vacuumWith D0 false clean (fun _ txns => txns) =
+      { (σ3.commitTxn vt).1 with clock := (σ3.commitTxn vt).1.clock + 1 } := by
+    subst hσ3
+    subst hr'
+    subst hσ2
+    rfl
+  rw [hunf]
+  unfold Rel
+  have hsess5 : (σ3.commitTxn vt).1.sessions = [] := by
+    rw [commitTxn_sessions, ← hσ3]; exact hσ2sess
+  refine ⟨⟨c5.cinv, ⟨c5.sinv.stamps, c5.sinv.sorted, ?_⟩, c5.cat, ?_, c5.committed, c5.log⟩, ?_, ?_, ?_⟩
+  · intro row hrow
+    have := c5.sinv.bound row hrow
+    unfold ridLt at *; simp only at *; omega
+  · show (σ3.commitTxn vt).1.clock + 1 = α.clock + 1
+    have := c5.clock
+    simp only at this
+    rw [this]
+  · intro name tid hn
+    simp [lkS, hsess5, lookup] at hn
+  · intro name _
+    simp [lkA, Spec.State.quiesce, lookup]
+  · intro n1 n2 tid hn
+    simp [lkS, hsess5, lookup] at hn
+
+/-! ### reopen and VACUUM keep the simulation relation -/
+
+theorem quiesce_rel (σ : State) (α : Spec.State) (h : Rel σ α) : Rel (σ.quiesce D0) α.quiesce := by
+  unfold State.quiesce
+  apply frame_rel σ α h
+  · intro s hz rows r' hr'; exact ⟨r', hr', rfl, fun u hu => hu⟩
+  · intro s hz rows hp; exact hp
+  · intro s hz rows S _; rfl
+
+theorem mem_vacuumRows {V : VDefects} {s : Snapshot} {h : Nat} {rows : List Row} {r' : Row} :
+    r' ∈ vacuumRows V s h rows ↔ ∃ r ∈ rows, r.vacuum V s h = some r' := by
+  simp [vacuumRows, List.mem_filterMap]
+
+theorem vacuumRows_sorted (V : VDefects) (s : Snapshot) (h : Nat) (rows : List Row)
+    (hp : rows.Pairwise (fun a b => ridLt a.rid b.rid)) :
+    (vacuumRows V s h rows).Pairwise (fun a b => ridLt a.rid b.rid) := by
+  unfold vacuumRows
+  apply List.Pairwise.filterMap _ _ hp
+  intro a a' haa b hb b' hb'
+  rw [(Row.vacuum_some hb).1, (Row.vacuum_some hb').1]; exact haa
+
+/-- **All rows.**  Under the hypotheses of `Row.vacuum_view` for every row, the whole store reads the same -/
+theorem vacuumRows_view (s S : Snapshot) (h : Nat) (rows : List Row)
+    (hS : ∀ r ∈ rows, ∀ u ∈ r.owners, S.sees u = s.cb u ∧ s.aborted.contains u = !s.cb u) :
+    view D0 S (vacuumRows V0 s h rows) = view D0 S rows := by
+  unfold view vacuumRows
+  rw [List.filterMap_filterMap]
+  apply filterMap_congr_mem
+  intro r hr
+  exact Row.vacuum_view s S h r (fun u hu => (hS r hr u hu).1) (fun u hu => (hS r hr u hu).2)
+
+theorem vacuum_eq_frame (σ : State) :
+    σ.vacuum D0 V0 = σ.vacuumWith D0 false (vacuumRows V0) (fun _ txns => txns) := rfl
+
+theorem vacuum_rel (σ : State) (α : Spec.State) (h : Rel σ α) : Rel (σ.vacuum D0 V0) α.quiesce := by
+  rw [vacuum_eq_frame]
+  apply frame_rel σ α h
+  · intro s hz rows r' hr'
+    obtain ⟨r, hr, hv⟩ := mem_vacuumRows.1 hr'
+    exact ⟨r, hr, (Row.vacuum_some hv).1, Row.vacuum_owners hv⟩
+  · intro s hz rows hp; exact vacuumRows_sorted V0 s hz rows hp
+  · intro s hz rows S hS; exact vacuumRows_view s S hz rows hS
+
+/-! ### histories with VACUUM and reopen -/
+
+/-- the relation for the machine with VACUUM: the database states are related and no session is marked killed -/
+def VRel (τ : VState) (α : Spec.State) : Prop := Rel τ.db α ∧ τ.killed = []
+
+theorem vstep_ok (τ : VState) (α : Spec.State) (h : VRel τ α) (o : VOp) :
+    (vstep D0 V0 τ o).2 = .out (Spec.vstep α o).2 ∧ VRel (vstep D0 V0 τ o).1 (Spec.vstep α o).1 := by
+  obtain ⟨hr, hk⟩ := h
+  cases o with
+  | vacuum =>
+    refine ⟨rfl, ?_, ?_⟩
+    · exact vacuum_rel τ.db α hr
+    · show (if V0.vacuumLeavesSessionsOpen = true then τ.db.sessions.map (·.1) ++ τ.killed else τ.killed) = []
+      simp [V0, VDefects.none, hk]
+  | reopen => exact ⟨rfl, quiesce_rel τ.db α hr, rfl⟩
+  | op o =>
+    obtain ⟨ho, hr'⟩ := step_ok τ.db α hr o
+    have hplain : vstep D0 V0 τ (.op o) = ({ τ with db := (step D0 τ.db o).1 }, .out (step D0 τ.db o).2) ∨
+        vstep D0 V0 τ (.op o) = ({ db := (step D0 τ.db o).1, killed := [] }, .out (step D0 τ.db o).2) := by
+      cases o <;> simp [vstep, hk]
+    rcases hplain with e | e
+    · rw [e]; exact ⟨by simp only [Spec.vstep]; rw [ho], by simpa [Spec.vstep] using hr', hk⟩
+    · rw [e]; exact ⟨by simp only [Spec.vstep]; rw [ho], by simpa [Spec.vstep] using hr', rfl⟩
+
+theorem vinit_rel (cat : Catalog) : VRel (VState.init cat) (Spec.State.init cat) := ⟨init_rel cat, rfl⟩
+
+theorem vrunFrom_ok : ∀ (ops : List VOp) (τ : VState) (α : Spec.State), VRel τ α →
+    vrunFrom D0 V0 τ ops = (Spec.vouts α ops).map VOut.out ∧ VRel (vfinal D0 V0 τ ops) (Spec.vfinal α ops)
+  | [], _, _, h => ⟨rfl, h⟩
+  | o :: os, τ, α, h => by
+    obtain ⟨ho, hr⟩ := vstep_ok τ α h o
+    obtain ⟨h1, h2⟩ := vrunFrom_ok os _ _ hr
+    simp only [vrunFrom, Spec.vouts, vfinal, Spec.vfinal, List.map_cons]
+    exact ⟨by rw [ho, h1], h2⟩
+
+/-- every state reachable by a history with VACUUM and reopen is related to the abstract state of that history -/
+theorem vreach_rel (cat : Catalog) (ops : List VOp) :
+    VRel (vfinal D0 V0 (VState.init cat) ops) (Spec.vfinal (Spec.State.init cat) ops) :=
+  (vrunFrom_ok ops _ _ (vinit_rel cat)).2
 
 end AxVerif.Db
